@@ -35,12 +35,27 @@ static uint8_t *kat[4];         /* writable known-answer data of the real self-t
 static const char *const kat_sym[4] = { "msg_sha512", "aes_gcm_256_tag", "aes_cbc_128_iv", "aes_xts_128_key1" };           /* self_test_status inside the library */
 static inline uint64_t tick(void) { return __atomic_add_fetch(&clk, 1, __ATOMIC_SEQ_CST); }
 
+/* re-arm / read the status word: exported accessor in the x86 configuration, a function-local static in the portable driver */
+static void set_status(int v) { if (g_noarch) __atomic_store_n(status_var, (uint32_t) v, __ATOMIC_SEQ_CST); else asm_set_self_tests_status(v); }
+/* the portable driver waits with usleep(1): under the controlled scheduler that is the yield point (a pause instruction the trap handler recognises) */
+extern int __real_usleep(useconds_t);
+static volatile int sched_mode_on;
+int __wrap_usleep(useconds_t us);
+int __wrap_usleep(useconds_t us)
+{
+        if (sched_mode_on) { __asm__ volatile("pause"); return 0; }
+        return __real_usleep(us);
+}
 int __wrap__aes_self_tests(void);
 int __wrap__aes_self_tests(void)
 {
         __atomic_add_fetch(&n_aes, 1, __ATOMIC_SEQ_CST);
         for (volatile int i = 0; i < stub_spin; i++) ;
-        if (stall_us) usleep(stall_us);
+        if (stall_us) __real_usleep(stall_us);
+        if (g_noarch) {         /* no AES unit in the portable configuration: always a stub; the driver stops after a failed AES group */
+                if (verdict_fail == 1) t_selftest_exit = tick();
+                return verdict_fail == 1 ? 1 : 0;
+        }
         if (run_real == 2) return __real__aes_self_tests();     /* natural verdict of the real tests (a known-answer bit may be flipped) */
         if (run_real) (void) __real__aes_self_tests();
         return verdict_fail == 1 ? 1 : 0;      /* verdict_fail: 1 = the AES group fails, 2 = only the SHA group fails */
@@ -61,7 +76,7 @@ static ISAL_SHA256_HASH_CTX_MGR mgrs[64] __attribute__((aligned(64)));   /* prea
 static int first_call(int kind, int me)
 {
         if (kind == 0) return isal_self_tests();
-        if (kind == 1) { uint8_t key[16] = { 1 }, e[176], d[176]; return isal_aes_keyexp_128(key, e, d); }
+        if (kind == 1 && !g_noarch) { uint8_t key[16] = { 1 }, e[176], d[176]; return isal_aes_keyexp_128(key, e, d); }
         return isal_sha256_ctx_mgr_init(&mgrs[me]);
 }
 
@@ -139,7 +154,7 @@ static uint64_t run_schedule(uint64_t c, char *desc, size_t dn, uint64_t *hash_o
 {
         for (int i = 0; i < MAXT; i++) { done[i] = 0; steps_of[i] = steps_after_publish[i] = ret_clk[i] = 0; rcs[i] = -99; }
         gstep = pstep = 0; published = 0; publish_clk = 0; n_aes = n_sha = 0; clk = 0; t_selftest_exit = 0; ntrace = 0; deadlock = 0;
-        asm_set_self_tests_status(2);
+        set_status(2);
         pthread_t th[MAXT];
         turn = -1;
         for (int i = 0; i < nthr; i++) pthread_create(&th[i], NULL, sched_thread, (void *) (intptr_t) i);
@@ -158,7 +173,7 @@ static void judge(const char *modes, uint64_t c, const char *desc, const char *r
         char key[200];
         int want = verdict_fail ? ISAL_CRYPTO_ERR_SELF_TEST : 0;
         if (deadlock) { snprintf(key, sizeof key, "hang sched %s threads=%d", modes, nthr); out_viol("C17", key, rb, "a thread spun in the wait loop for more than 200000 of its own steps without the status changing (schedule %s)", desc); return; }
-        if (n_aes != 1 || n_sha != 1) { snprintf(key, sizeof key, "selftests-not-once sched threads=%d", nthr); out_viol("C17", key, rb, "AES self-tests entered %d time(s), SHA self-tests %d time(s) in one run of %d threads (verdict %s; schedule %s)", n_aes, n_sha, nthr, verdict_fail ? "fail" : "pass", desc); }
+        if (n_aes != 1 || (n_sha != 1 && !(g_noarch && n_sha == 0 && verdict_fail == 1))) { snprintf(key, sizeof key, "selftests-not-once sched threads=%d", nthr); out_viol("C17", key, rb, "AES self-tests entered %d time(s), SHA self-tests %d time(s) in one run of %d threads (verdict %s; schedule %s)", n_aes, n_sha, nthr, verdict_fail ? "fail" : "pass", desc); }
         for (int i = 0; i < nthr; i++) {
                 if (rcs[i] != want) { snprintf(key, sizeof key, "wrong-verdict sched threads=%d", nthr); out_viol("C17", key, rb, "thread %d returned %d, the injected verdict is %s (schedule %s)", i, rcs[i], verdict_fail ? "fail" : "pass", desc); }
                 if (ret_clk[i] < t_selftest_exit) { snprintf(key, sizeof key, "returned-before-selftests-finished sched threads=%d", nthr); out_viol("C17", key, rb, "thread %d returned (rc %d) at logical time %llu, the self-tests finished at %llu (schedule %s)", i, rcs[i], (unsigned long long) ret_clk[i], (unsigned long long) t_selftest_exit, desc); }
@@ -191,8 +206,10 @@ static void mode_sched(void)
         sa.sa_sigaction = on_trap; sa.sa_flags = SA_SIGINFO | SA_NODEFER; sigemptyset(&sa.sa_mask);
         sigaction(SIGTRAP, &sa, NULL);
         static const char *const pn[3] = { "asm_check_self_tests_status", "asm_set_self_tests_status", "isal_self_tests" };
+        sched_mode_on = 1;
         for (int i = 0; i < 3; i++) {
                 proto_lo[i] = (uintptr_t) sym_addr(pn[i]);
+                if (!proto_lo[i] && g_noarch && i < 2) { proto_hi[i] = 0; continue; }    /* the portable protocol lives in isal_self_tests alone */
                 if (!proto_lo[i]) out_err("symbol %s not found", pn[i]);
                 proto_hi[i] = sym_next_global(proto_lo[i]);
                 if (!proto_hi[i] || proto_hi[i] - proto_lo[i] > 0x400) proto_hi[i] = proto_lo[i] + 0x100;
@@ -294,14 +311,14 @@ static void mode_stress(void)
                 verdict_fail = (int) rng_below(&r, 3);
                 run_real = rng_below(&r, 200) == 0;
                 unsigned flip = 0;
-                if (rng_below(&r, 1000) == 0) { run_real = 2; flip = rng_below(&r, 16); verdict_fail = flip != 0; for (int k = 0; k < 4; k++) if (flip >> k & 1) *kat[k] ^= 1; out_count("stress_rounds_with_real_self_tests", 1); }
+                if (rng_below(&r, 1000) == 0) { run_real = 2; flip = rng_below(&r, 16); if (g_noarch) flip &= 1; verdict_fail = flip != 0; for (int k = 0; k < 4; k++) if (flip >> k & 1) *kat[k] ^= 1; out_count("stress_rounds_with_real_self_tests", 1); }
                 /* once per run: the claim winner is stalled for several seconds inside the self-tests while the others wait */
                 int stall = (c == g_from + 3 && arg_int("--stall-s", 0) > 0);
                 if (stall) { stall_us = (unsigned) arg_int("--stall-s", 0) * 1000000u; if (active_n < 3) active_n = 3; out_count("stress_long_stall_rounds", 1); } else stall_us = 0;
                 stub_spin = rng_below(&r, 3) ? (int) rng_below(&r, 400) : (int) rng_below(&r, 20000);
                 for (int i = 0; i < active_n; i++) { kind_of[i] = rng_below(&r, 2) ? 0 : 1 + (int) rng_below(&r, 2); delay_of[i] = rng_below(&r, 2) ? 0 : (int) rng_below(&r, 300); rc_of[i] = -99; }
                 n_aes = n_sha = 0; clk = 0; t_selftest_exit = 0;
-                asm_set_self_tests_status(2);
+                set_status(2);
                 snprintf(rb, sizeof rb, "{\"engine\":\"fipssched\",\"mode\":\"stress\",\"seed\":%llu,\"case\":%llu}", (unsigned long long) g_seed, (unsigned long long) c);
                 snprintf(cur_replay, sizeof cur_replay, "%s", rb);
                 sbar_wait(&bar_go);
@@ -329,7 +346,7 @@ static void mode_stress(void)
                         }
                 }
                 int want = verdict_fail ? ISAL_CRYPTO_ERR_SELF_TEST : 0;
-                if (n_aes != 1 || n_sha != 1) { snprintf(key, sizeof key, "selftests-not-once stress"); out_viol("C17", key, rb, "AES self-tests entered %d time(s), SHA self-tests %d time(s) in a round of %d threads", n_aes, n_sha, active_n); }
+                if (n_aes != 1 || (n_sha != 1 && !(g_noarch && n_sha == 0 && verdict_fail == 1))) { snprintf(key, sizeof key, "selftests-not-once stress"); out_viol("C17", key, rb, "AES self-tests entered %d time(s), SHA self-tests %d time(s) in a round of %d threads", n_aes, n_sha, active_n); }
                 for (int i = 0; i < active_n; i++) {
                         if (rc_of[i] != want) { snprintf(key, sizeof key, "wrong-verdict stress"); out_viol("C17", key, rb, "thread %d of %d returned %d, injected verdict %s", i, active_n, rc_of[i], verdict_fail ? "fail" : "pass"); }
                         if (rclk_of[i] < t_selftest_exit) { snprintf(key, sizeof key, "returned-before-selftests-finished stress"); out_viol("C17", key, rb, "thread %d returned at logical time %llu before the self-tests finished at %llu", i, (unsigned long long) rclk_of[i], (unsigned long long) t_selftest_exit); }
@@ -361,14 +378,14 @@ int main(int argc, char **argv)
 #ifndef VERIF_FIPS
         out_err("fipssched must be linked against the FIPS_MODE build");
 #endif
-        status_var = sym_addr("self_test_status");
+        status_var = g_noarch ? sym_addr_prefix("self_tests_status.") : sym_addr("self_test_status");
         if (!status_var) out_err("self_test_status not found in the symbol table");
         for (int k = 0; k < 4; k++) { kat[k] = sym_addr(kat_sym[k]); if (!kat[k]) out_err("known-answer data %s of the self-tests not found", kat_sym[k]); }
         if (*status_var != 2) out_err("self_test_status does not hold NOT_DONE at start-up (%u)", *status_var);
         const char *m = arg_str("--mode", "stress");
         if (!strcmp(m, "sched")) mode_sched(); else mode_stress();
         out_sample("{\"engine\":\"fipssched\",\"mode\":\"%s\",\"first_case\":%llu,\"cases\":%llu}", m, (unsigned long long) g_from, (unsigned long long) g_count);
-        asm_set_self_tests_status(0);
+        set_status(0);
         out_finish();
         return viol_count() ? 1 : 0;
 }
